@@ -52,10 +52,18 @@ func ASEIsolationLevelFromGo(lvl sql.IsolationLevel) (ASEIsolationLevel, error) 
 // ToGo returns the database/sql.IsolationLevel equivalent of the ASE
 // isolation level.
 func (lvl ASEIsolationLevel) ToGo() sql.IsolationLevel {
-	for sqlLvl, aseLvl := range sql2ase {
-		if aseLvl == lvl {
-			return sqlLvl
-		}
+	// The mapping is not taken from sql2ase: several database/sql
+	// levels map to the same ASE level and map iteration order is
+	// random.
+	switch lvl {
+	case ASELevelReadUncommitted:
+		return sql.LevelReadUncommitted
+	case ASELevelReadCommitted:
+		return sql.LevelReadCommitted
+	case ASELevelRepeatableRead:
+		return sql.LevelRepeatableRead
+	case ASELevelSerializableRead:
+		return sql.LevelSerializable
 	}
 
 	return sql.LevelDefault
